@@ -104,6 +104,10 @@ impl Eval {
             return Ok(x.clone());
         };
 
+        // NOTE: Running the code pushes a new frame. A direct `eval` is not a `[[Call]]`, so the
+        // runtime limits have to be checked here, or `eval` could recurse without bound.
+        context.check_runtime_limits()?;
+
         // Because of implementation details the following code differs from the spec.
 
         // 3. Let evalRealm be the current Realm Record.
